@@ -5,7 +5,7 @@
    are universally quantified. The repair flags of the model are the values
    regenerated from chunk.go: drop_stream_on_invalid_chunk,
    first_chunk_validated_before_discard (Gen/GenC15.v). *)
-From DB Require Import Base.Bytes Model.Chunks Proofs.Chunks.
+From DB Require Import Base.Bytes Model.Chunks Proofs.Chunks Proofs.ChunksFrame.
 Open Scope N_scope.
 
 (* a chunk with a foreign deployment id or binary version is ignored: the state is unchanged *)
@@ -105,6 +105,33 @@ Theorem chunk_finalize_refuted :
 Proof. exact chunk_finalize_refuted_proved. Qed.
 Print Assumptions chunk_finalize_refuted.
 
+(* in every state reachable from the initial one, offering a chunk of snapshot k (accepted
+   or not) leaves the tracked stream, every temp dir and the final dir of any other snapshot
+   k' exactly as they were (the only coupling between streams is the slot limit, which can
+   refuse a first chunk) *)
+Theorem streams_independent :
+  forall D dapp V vinit vadd vfinal my_did gc_tick timeout max_slots ops (st st' : state D V) (c : chunk D) b k',
+    run D dapp V vinit vadd vfinal drop_stream_on_invalid_chunk first_chunk_validated_before_discard
+        my_did gc_tick timeout max_slots init ops = Some st ->
+    add D dapp V vinit vadd vfinal drop_stream_on_invalid_chunk first_chunk_validated_before_discard
+        my_did max_slots st c = Done st' b ->
+    k' <> key_of (fst c) ->
+    same_at D V k' st st'.
+Proof. exact streams_independent_gen. Qed.
+Print Assumptions streams_independent.
+
+(* at a gc tick every tracked stream whose last accepted chunk is [timeout] ticks old is
+   untracked and its temp dir is removed (wherever the tick falls between chunks) *)
+Theorem stalled_stream_collected :
+  forall D V gc_tick timeout (st : state D V) k td,
+    alookup key_eqb k (s_tracked st) = Some td ->
+    (s_tick st + 1) mod gc_tick = 0 ->
+    timeout <= s_tick st + 1 - t_tick td ->
+    alookup key_eqb k (s_tracked (tick D V gc_tick timeout st)) = None /\
+    alookup tkey_eqb (tkey_of (t_first td)) (s_temps (tick D V gc_tick timeout st)) = None.
+Proof. exact stalled_stream_collected_gen. Qed.
+Print Assumptions stalled_stream_collected.
+
 (* path.Base of any Filepath is ".", ".." or "/" (a directory: create fails, save
    errors) or a plain child name without a separator *)
 Theorem filename_confined_base :
@@ -131,3 +158,16 @@ Example in_order_witness :
   replay bytes (@app N) [] ex_stream = Some [([115], [1; 2; 3]); ([120], [7; 8])] /\
   vfold bytes N toy_vadd 0 ex_stream = Some 2.
 Proof. vm_compute. repeat split; reflexivity. Qed.
+
+(* non-vacuity of stalled_stream_collected / streams_independent: after the first chunk of
+   ex_stream a stream is tracked; 30 ticks (default gc interval) with timeout 20 collect it *)
+Example stalled_witness :
+  option_map (fun st => (length (s_tracked st), length (s_temps st)))
+    (run bytes (@app N) N 0 toy_vadd (fun _ => true) drop_stream_on_invalid_chunk
+         first_chunk_validated_before_discard 7 snapshot_gc_tick 20 128 init
+         (OAdd (ex_meta 0 0 [47; 115] false, [1; 2]) :: repeat OTick 29)) = Some (1%nat, 1%nat) /\
+  option_map (fun st => (length (s_tracked st), length (s_temps st)))
+    (run bytes (@app N) N 0 toy_vadd (fun _ => true) drop_stream_on_invalid_chunk
+         first_chunk_validated_before_discard 7 snapshot_gc_tick 20 128 init
+         (OAdd (ex_meta 0 0 [47; 115] false, [1; 2]) :: repeat OTick 30)) = Some (0%nat, 0%nat).
+Proof. vm_compute. split; reflexivity. Qed.
